@@ -61,9 +61,22 @@ func gate(name string) bool {
 	return knownGates[name]
 }
 
+// openAllGates is used by replays: a saved case is always decided on its full domain.
+func openAllGates() {
+	knownOnce.Do(func() {})
+	knownGates = map[string]bool{}
+}
+
 // excluded counts one draw redirected by a gate.
 func excluded() {
 	stats.mu.Lock()
 	stats.Excluded++
 	stats.mu.Unlock()
+}
+
+// excludedIn counts one query skipped by a gate, in the statistics of env.
+func excludedIn(env *Env) {
+	env.Stats.mu.Lock()
+	env.Stats.Excluded++
+	env.Stats.mu.Unlock()
 }
